@@ -481,9 +481,13 @@ def eval_c02(case):
         side = "missing" if missing and not extra else "extra" if extra and not missing else "both"
         ev.add("report-cells-differ:" + side, {"missing_from_report": missing, "not_in_reference": extra, "features": feats})
     # strict and ordered are evaluated in one pass that stops at its first violation
-    if (None, "column_in_schema") in want_frame:
-        want_frame.discard((None, "column_ordered"))
-        got_frame.discard((None, "column_ordered"))
+    pair = {(None, "column_in_schema"), (None, "column_ordered")}
+    if pair <= want_frame:
+        if not (pair & got_frame):
+            ev.add("frame-level-entries-differ", {"reference": sorted(map(str, want_frame)), "reported": sorted(map(str, got_frame)),
+                                                  "features": feats})
+        want_frame -= pair
+        got_frame -= pair
     if want_frame != got_frame:
         ev.add("frame-level-entries-differ", {"reference": sorted(map(str, want_frame)), "reported": sorted(map(str, got_frame)),
                                               "features": feats})
